@@ -15,6 +15,7 @@ import (
 	"net"
 	"os"
 	"strconv"
+	"strings"
 	"sync"
 	"testing"
 	"time"
@@ -277,14 +278,150 @@ func vrtPartialScenario() (res vrtPartialResult) {
 	return
 }
 
+// ---- scenario 3: the first address of each sender's pool refuses connections ----
+
+type vrtCase struct {
+	input, term string
+	nontrivial  bool
+	kinds       []string
+	fails       []string
+}
+
+func vrtDeadAddr() string {
+	ln, err := net.Listen("tcp", "127.0.0.1:0")
+	if err != nil {
+		return "127.0.0.1:1"
+	}
+	a := ln.Addr().String()
+	_ = ln.Close()
+	return a
+}
+
+func vrtReconnectScenario() (out []vrtCase) {
+	const hostTag = "verif3"
+	lnA, errA := net.Listen("tcp", "127.0.0.1:0")
+	lnB, errB := net.Listen("tcp", "127.0.0.1:0")
+	if errA != nil || errB != nil {
+		return nil
+	}
+	upA, upB := &vrtUpstream{ln: lnA}, &vrtUpstream{ln: lnB}
+	go upA.serve(hostTag)
+	go upB.serve(hostTag)
+	defer lnA.Close()
+	defer lnB.Close()
+	// the only configured address is down; then a "DNS refresh" (the real replacePool) gives the primary sender
+	// [dead, live] and the secondary [dead, dead, live]
+	e := NewEgress(EgressConfig{Address: vrtDeadAddr(), HostTag: hostTag, ReconnectDelay: 200 * time.Millisecond, DialTimeout: time.Second})
+	h := newHandler(e)
+	defer func() {
+		h.Close()
+		_ = e.Close()
+	}()
+	e.pool.primary.replacePool(addressPool{addrs: []string{vrtDeadAddr(), lnA.Addr().String()}})
+	e.pool.secondary.replacePool(addressPool{addrs: []string{vrtDeadAddr(), vrtDeadAddr(), lnB.Addr().String()}})
+	n := bufferLen * 20 / 100
+	const l = 24
+	for i := 1; i <= n; i++ {
+		_ = h.HandleMetricsBatchRaw(vbBody(int64(i), l))
+	}
+	st := e.Stats()
+	c := vrtCase{term: "CRetry (-1)", kinds: []string{"rt_reconnect"}}
+	// "within a bounded delay (about one second plus reconnection time)": a live address is in the sender's pool
+	okA := vrtWait(5*time.Second, func() bool { x := upA.conn(0); return x != nil && x.count() >= n })
+	okB := vrtWait(2*time.Second, func() bool { return upB.conn(0) != nil })
+	outcome := "forwarded"
+	if !okA || !okB {
+		outcome = "stuck"
+		c.fails = append(c.fails, "egress_packet_not_forwarded_after_upstream_failure")
+	} else {
+		x := upA.conn(0)
+		x.mu.Lock()
+		for i, f := range x.frames {
+			if len(f) != l || string(f[pktHeadLen:]) != string(vbBody(int64(i+1), l)) {
+				c.fails = append(c.fails, "egress_bytes_corrupted")
+				break
+			}
+		}
+		x.mu.Unlock()
+	}
+	if st.ForwardedPackets != uint64(n) || st.DroppedPackets != 0 {
+		c.fails = append(c.fails, "egress_packet_not_counted")
+	}
+	c.kinds = append(c.kinds, "rt_reconnect_"+outcome)
+	c.nontrivial = true
+	c.input = fmt.Sprintf("egress rt-reconnect: pools [dead,live] [dead,dead,live] W%dx%d primary=%v secondary=%v reconnect_errors=%d -> %s",
+		n, l, okA, okB, e.stats.reconnectErrors.Load(), outcome)
+	out = append(out, c)
+
+	// the real tcpSender.reconnect() on a pool of refusing addresses: which address each attempt dials
+	dead := []string{vrtDeadAddr(), vrtDeadAddr(), vrtDeadAddr()}
+	cfg := EgressConfig{HostTag: hostTag, DialTimeout: time.Second}
+	cfg.fillDefaults()
+	for head := 0; head < 3; head++ {
+		s := &tcpSender{cfg: cfg, stats: &egressStatsAtomic{}, pool: addressPool{addrs: dead, head: head}}
+		var obs []int64
+		tried := map[int64]bool{}
+		for k := 0; k < 5; k++ {
+			_, err := s.reconnect()
+			idx := int64(-1)
+			if err != nil {
+				for i, a := range dead {
+					if strings.Contains(err.Error(), a) {
+						idx = int64(i)
+					}
+				}
+			}
+			obs = append(obs, idx)
+			if k < len(dead) {
+				tried[idx] = true
+			}
+		}
+		pc := vrtCase{term: fmt.Sprintf("CPicks %d %d %s", len(dead), head, vu.ListZ(obs)), kinds: []string{"reconnect_picks"}, nontrivial: true,
+			input: fmt.Sprintf("egress reconnect-picks n=%d head=%d -> %v", len(dead), head, obs)}
+		if len(tried) != len(dead) {
+			// an address of the pool is never tried within len(pool) attempts
+			pc.fails = append(pc.fails, "egress_packet_not_forwarded_after_upstream_failure")
+		}
+		out = append(out, pc)
+	}
+	return out
+}
+
 func TestVerifEgressRT(t *testing.T) {
 	outDir := os.Getenv("VERIF_OUT")
 	if outDir == "" {
 		t.Skip("VERIF_OUT not set")
 	}
-	_, _ = strconv.ParseUint(os.Getenv("VERIF_SEED"), 10, 64)
+	seed, _ := strconv.ParseUint(os.Getenv("VERIF_SEED"), 10, 64)
 	o := vu.NewOut(outDir)
 	defer o.Close()
+	reconCh := make(chan []vrtCase, 1)
+	go func() { reconCh <- vrtReconnectScenario() }()
+	defer func() {
+		for _, c := range <-reconCh {
+			line := o.Case(c.input, c.term, c.nontrivial, c.kinds...)
+			for _, f := range c.fails {
+				o.Fail(f, line, c.input)
+			}
+		}
+		// addressPool.pick itself
+		r := vu.NewRng(seed)
+		for i := 0; i < 8; i++ {
+			n := 1 + r.Intn(5)
+			p := addressPool{head: r.Intn(n)}
+			for j := 0; j < n; j++ {
+				p.addrs = append(p.addrs, strconv.Itoa(j))
+			}
+			head := p.head
+			var obs []int64
+			for k := 0; k < 2*n+1; k++ {
+				a, _ := p.pick()
+				x, _ := strconv.Atoi(a)
+				obs = append(obs, int64(x))
+			}
+			o.Case(fmt.Sprintf("egress picks n=%d head=%d", n, head), fmt.Sprintf("CPicks %d %d %s", n, head, vu.ListZ(obs)), n > 1, "picks")
+		}
+	}()
 	partialCh := make(chan vrtPartialResult, 1)
 	go func() { partialCh <- vrtPartialScenario() }()
 	defer func() {
